@@ -197,6 +197,7 @@ class World:
         self.callbacks = []  # event callback log
         self.conn_events = []  # (t, "made"/"lost", arg)
         self.conn_callbacks = conn_callbacks
+        self.conn_hook = None  # fn(kind, exc) invoked inside the connection-lost callback
         self.event_hook = None  # fn(msg) invoked inside the event callback
         self.logic_hook = None  # fn(line) invoked when the processing of a line begins (in that thread)
         self.logic_log = []  # (line, begin_wseq)
@@ -258,6 +259,8 @@ class World:
     def _on_conn_lost(self, gateway, exc):
         self.conn_events.append((self.sim.now, "lost", gateway, exc))
         self.sim.ev("conn_lost", type(exc).__name__ if exc is not None else None)
+        if self.conn_hook is not None:
+            self.conn_hook("lost", exc)  # the application's callback may take its time (runs in the calling thread)
 
     def ensure_loop(self):
         if self.loop is None:
